@@ -168,10 +168,11 @@ func (q *c19eq) mapEq(r *c19run, fo *types.Func) {
 	L := loops[0]
 	other := ps[2-isParam(L.X)]
 	kObj, vObj := c19obj(f, L.Key), c19obj(f, L.Value)
-	if kObj == nil || vObj == nil {
-		c.Undecide("R-C19-4", cons+"|values compared for every key", pos(c, L), "the per-key loop does not bind both key and value")
+	if kObj == nil {
+		c.Undecide("R-C19-4", cons+"|values compared for every key", pos(c, L), "the per-key loop does not bind the key")
 		return
 	}
+	ranged := ps[isParam(L.X)-1]
 	// entries of the other snapshot under the same key
 	isOtherAtKey := func(e ast.Expr) bool {
 		ix, ok := ast.Unparen(e).(*ast.IndexExpr)
@@ -186,7 +187,28 @@ func (q *c19eq) mapEq(r *c19run, fo *types.Func) {
 		}
 		return true
 	})
-	isV := func(e ast.Expr) bool { return c19obj(f, e) == vObj }
+	vObjs := map[types.Object]bool{}
+	if vObj != nil {
+		vObjs[vObj] = true
+	}
+	isRangedAtKey := func(e ast.Expr) bool {
+		ix, ok := ast.Unparen(e).(*ast.IndexExpr)
+		return ok && c19obj(f, ix.X) == types.Object(ranged) && c19obj(f, ix.Index) == kObj
+	}
+	c19inspect(L.Body, func(n ast.Node) bool {
+		if as, ok := n.(*ast.AssignStmt); ok && len(as.Rhs) == 1 && len(as.Lhs) >= 1 && isRangedAtKey(as.Rhs[0]) {
+			if o := c19obj(f, as.Lhs[0]); o != nil {
+				vObjs[o] = true
+			}
+		}
+		return true
+	})
+	isV := func(e ast.Expr) bool {
+		if o := c19obj(f, e); o != nil && vObjs[o] {
+			return true
+		}
+		return isRangedAtKey(e)
+	}
 	isW := func(e ast.Expr) bool {
 		if o := c19obj(f, e); o != nil && wObjs[o] {
 			return true
